@@ -1,7 +1,7 @@
 use crate::runtime::error::state_error;
 use crate::runtime::list::{access_with_integer, access_with_symbol};
 use crate::runtime::utilities::*;
-use garnish_lang_traits::{Extents, GarnishData, GarnishDataType, GarnishNumber, Instruction, RuntimeError, SymbolListPart, TypeConstants};
+use garnish_lang_traits::{ErrorType, Extents, GarnishData, GarnishDataType, GarnishNumber, Instruction, RuntimeError, SymbolListPart, TypeConstants};
 use log::trace;
 
 pub fn apply<Data: GarnishData>(this: &mut Data) -> Result<Option<Data::Size>, RuntimeError<Data::Error>> {
@@ -141,7 +141,7 @@ fn apply_internal<Data: GarnishData>(this: &mut Data, instruction: Instruction, 
             while let Some(part) = iter.next() {
                 match part {
                     SymbolListPart::Symbol(sym) => {
-                        match access_with_symbol(this, sym, current)? {
+                        match absorb_unsupported(access_with_symbol(this, sym, current))? {
                             None => {
                                 current = this.add_unit()?;
                                 break;
@@ -150,7 +150,7 @@ fn apply_internal<Data: GarnishData>(this: &mut Data, instruction: Instruction, 
                         }
                     },
                     SymbolListPart::Number(num) => {
-                        match access_with_integer(this, num, current)? {
+                        match absorb_unsupported(access_with_integer(this, num, current))? {
                             None => {
                                 current = this.add_unit()?;
                                 break;
@@ -180,6 +180,14 @@ fn apply_internal<Data: GarnishData>(this: &mut Data, instruction: Instruction, 
     }
 
     Ok(Some(next_instruction))
+}
+
+// a chained look-up that reaches a value which cannot be indexed finds nothing, it is not an error
+fn absorb_unsupported<T, E: std::error::Error + 'static>(result: Result<Option<T>, RuntimeError<E>>) -> Result<Option<T>, RuntimeError<E>> {
+    match result {
+        Err(e) if e.get_type() == ErrorType::UnsupportedOpTypes => Ok(None),
+        other => other,
+    }
 }
 
 pub(crate) fn narrow_range<Data: GarnishData>(this: &mut Data, to_narrow: Data::Size, by: Data::Size) -> Result<Data::Size, RuntimeError<Data::Error>> {
